@@ -379,6 +379,9 @@ func genCodecDecT(g *Gen, w *bufio.Writer, t *fTables) {
 			bs := bases[f]
 			for i := range bs {
 				a, b := bs[i], bs[(i+1)%len(bs)]
+				if len(a) < 2 || len(b) < 2 {
+					continue // a message the translator could not read on this run has no table
+				}
 				c := bs[g.Intn(len(bs))]
 				fmt.Fprintf(w, "dec2 plain %s %s\n", hexs(a), hexs(b))
 				fmt.Fprintf(w, "dec2 %s %s %s\n", f, hexs(b), hexs(a))
@@ -399,7 +402,9 @@ func genCodecDecT(g *Gen, w *bufio.Writer, t *fTables) {
 			}
 			man := mandatoryL(g, m, c.Const, d.TypeIndex, epdOf(fam), true)
 			base := renderMsg(m, man, nil)
-			bases[fam] = append(bases[fam], base)
+			if len(base) >= 2 {
+				bases[fam] = append(bases[fam], base)
+			}
 			// every truncation of the mandatory part
 			for k := 0; k <= len(base); k++ {
 				emit("plain", base[:k])
@@ -790,6 +795,9 @@ func genDispatchT(g *Gen, w *bufio.Writer, t *fTables) {
 		sort.Ints(keys)
 		for _, x := range keys {
 			bx := body[fmt.Sprintf("%s/%d", d.Family, x)]
+			if len(bx) < d.HeaderLen {
+				continue
+			}
 			for _, y := range keys {
 				by := body[fmt.Sprintf("%s/%d", d.Family, y)]
 				if x == y && g.Tier != "thorough" {
